@@ -348,9 +348,34 @@ func checkC30(c *Ctx, r *Report) {
 			guardVerdict(m, r, "C30.R4", "stream path entered only with a 64-hex digest and a positive, capped size", hd, call.(ssa.Instruction), g)
 			a := call.Common().Args
 			// receiver, r, w, requestID, bucket, key, expectedSHA, expectedSize, start
-			okArgs := len(a) >= 8 && sizeField(a[7]) && dependsOnField(a[6], "", "SHA256")
+			// (through a φ when the validation sits in a folded helper that returns "", 0, false on
+			// its rejecting paths: the constant inputs belong to paths that never reach the call)
+			nonConst := func(v ssa.Value) []ssa.Value {
+				var out []ssa.Value
+				for _, o := range origins(v) {
+					if _, isC := strip(o).(*ssa.Const); !isC {
+						out = append(out, o)
+					}
+				}
+				return out
+			}
+			okArgs := len(a) >= 8 && dependsOnField(a[6], "", "SHA256") && len(nonConst(a[7])) > 0
+			if okArgs {
+				for _, o := range nonConst(a[7]) {
+					if !sizeField(o) {
+						okArgs = false
+					}
+				}
+			}
 			dec := findCalls(hd, "encoding/hex.DecodeString")
-			sameDigest := len(dec) == 1 && len(a) >= 7 && strip(dec[0].Common().Args[0]) == strip(a[6])
+			sameDigest := len(dec) == 1 && len(a) >= 7 && len(nonConst(a[6])) > 0
+			if sameDigest {
+				for _, o := range nonConst(a[6]) {
+					if strip(dec[0].Common().Args[0]) != strip(o) {
+						sameDigest = false
+					}
+				}
+			}
 			if okArgs && sameDigest {
 				r.ok("C30.R4", "the validated digest and the declared size are what the stream path verifies against", m.Pos(call.Pos()), "")
 			} else {
